@@ -39,6 +39,7 @@ func StorePart(r *evid.Run) {
 		"(4 addresses, 60 ops, full sweep after ~82% of ops). Some ops are followed by no comparison so that lapsed records stay " +
 		"physically in the file. Distinct = (op kind, spelling kind, family, mask class, duration class of the ban in force, " +
 		"first-touch-after-reopen); non-trivial = a ban, or an unban/status that meets a record, or a reopen with records. " +
+		"A concurrent set bans a network (whose lapsed earlier record is still in the file) while 1-3 goroutines query its status: the ban must be in force once all calls returned. " +
 		"Thorough adds real 2 s bans judged only clearly inside (<1 s) or outside (>3.2 s) the ban on the monotonic clock.")
 	r.Assume("net/netip decides which spellings denote one IP address (IPv4-mapped IPv6 = the IPv4 address, Addr.Unmap) and the canonical prefix of (address, mask)")
 	r.Assume("walletdb/bbolt Close+Open is a faithful close and reopen of the database; no crash is injected here (C08)")
@@ -78,6 +79,10 @@ func StorePart(r *evid.Run) {
 	}
 	if *timedOnly {
 		return
+	}
+
+	if *onlySeq < 0 {
+		runConcurrentSet(r, dir, r.Pick(120, 1500))
 	}
 
 	nSeq := r.Pick(60, 1500)
